@@ -2,7 +2,7 @@ from props_meta import PROPS
 
 # properties whose check is finished and registered in MANIFEST.json (others stay under not_applicable
 # with the reason below until their theorems and harness are complete)
-READY = ["C01", "C02", "C03", "C04", "C05", "C08", "C09", "C10", "C11", "C12", "C13", "C14", "C15", "C16", "C17", "C18", "C19", "C20"]
+READY = ["C01", "C02", "C03", "C04", "C05", "C06", "C07", "C08", "C09", "C10", "C11", "C12", "C13", "C14", "C15", "C16", "C17", "C18", "C19", "C20"]
 
 CHECKS = {pid: d["manifest"] for pid, d in PROPS.items() if "manifest" in d and pid in READY}
 NOT_YET = {}
